@@ -3,7 +3,7 @@ import Enc.Lemmas.ThriftTotalBase
 C08, thrift: the generic skipper (`skip`, `skipN`, `skipPairs`, `skipStruct`) is a prefix reader, for EVERY input
 (not only encoder output), every wire type, every fuel:
 
-  * `pre_skip`        `Pre true PS (skip p fuel t)`: consumes ≥ 1 byte of a prefix, depends on that prefix only, and on
+  * `pre_skip`        `Pre true PS (skip p d fuel t)` (every depth `d`): consumes ≥ 1 byte of a prefix, depends on that prefix only, and on
                       every proper prefix of it fails with `"eof"` (cut at 0) / `"unexpectedEof"` (cut anywhere else)
   * `pre_skipN`, `pre_skipPairs`      uniform class `PU` (they run under `dontExpectEOF`)
   * `pre_skipStruct`  `PS` for the first field header (`num = 0`), `PU` afterwards
@@ -56,15 +56,15 @@ theorem wrapE_panic {α} (c : Bool) (e : String) : wrapE c (.panic e : R α) = .
   · rfl
   · simp only [if_true]; unfold dontExpectEOF; split <;> simp_all
 
-theorem skipStruct_succ (p : Proto) (fuel : Nat) (b : Bytes) (last : Int) (num : Nat) :
-    skipStruct p (fuel + 1) b last num =
+theorem skipStruct_succ (p : Proto) (d fuel : Nat) (b : Bytes) (last : Int) (num : Nat) :
+    skipStruct p d (fuel + 1) b last num =
       (wrapE (decide (0 < num)) (rField p b)).bind fun ((h, r) : FieldHdr × Bytes) =>
-        if h.t == .stop then .ok ((), r)
+        if h.t == .stop then (if h.delta then .err "deltaStop" else .ok ((), r))
         else
           (dontExpectEOF (if (h.t == .true_ || h.t == .bool) && p.coalesce then (.ok ((), r) : R Unit)
-            else skip p fuel h.t r)).bind
+            else skip p d fuel h.t r)).bind
             fun ((_, r) : Unit × Bytes) =>
-              skipStruct p fuel r (wrap16 (if h.delta then h.id + last else h.id)) (num + 1) := by
+              skipStruct p d fuel r (wrap16 (if h.delta then h.id + last else h.id)) (num + 1) := by
   rw [skipStruct]
   cases hr : rField p b with
   | ok hr' => obtain ⟨h, r⟩ := hr'; simp only [wrapE_ok, Res.bind]
@@ -92,21 +92,21 @@ theorem pre_wrapE_rField (p : Proto) (num : Nat) :
     simpa [hn, this] using h
 
 theorem skip_all (p : Proto) : ∀ fuel,
-    (∀ t, Pre true PS (fun b => skip p fuel t b)) ∧
-    (∀ t n, Pre false PU (fun b => skipN p fuel t n b)) ∧
-    (∀ kt vt n, Pre false PU (fun b => skipPairs p fuel kt vt n b)) ∧
-    (∀ last num, Pre true (PStruct num) (fun b => skipStruct p fuel b last num)) := by
+    (∀ d t, Pre true PS (fun b => skip p d fuel t b)) ∧
+    (∀ d t n, Pre false PU (fun b => skipN p d fuel t n b)) ∧
+    (∀ d kt vt n, Pre false PU (fun b => skipPairs p d fuel kt vt n b)) ∧
+    (∀ d last num, Pre true (PStruct num) (fun b => skipStruct p d fuel b last num)) := by
   intro fuel
   induction fuel with
   | zero =>
-    refine ⟨fun t => ?_, fun t n => ?_, fun kt vt n => ?_, fun last num => ?_⟩
+    refine ⟨fun d t => ?_, fun d t n => ?_, fun d kt vt n => ?_, fun d last num => ?_⟩
     · simp only [skip]; exact Pre.err _
     · simp only [skipN]; exact Pre.err _
     · simp only [skipPairs]; exact Pre.err _
     · simp only [skipStruct]; exact Pre.err _
   | succ fuel ih =>
     obtain ⟨ih1, ih2, ih3, ih4⟩ := ih
-    refine ⟨fun t => ?_, fun t n => ?_, fun kt vt n => ?_, fun last num => ?_⟩
+    refine ⟨fun d t => ?_, fun d t n => ?_, fun d kt vt n => ?_, fun d last num => ?_⟩
     · cases t with
       | true_ | bool => simp only [skip]; exact Pre.bind_post (pre_rBool p) (by pure_tac)
       | i8 => simp only [skip]; exact Pre.bind_post (pre_rI8 p) (by pure_tac)
@@ -123,50 +123,60 @@ theorem skip_all (p : Proto) : ∀ fuel,
         · exact fun _ => pre_dropN n
       | list | set =>
         simp only [skip]
-        exact Pre.bind_first (pre_rList p) (fun a => ih2 a.1 a.2) PS_pos
+        apply Pre.ite
+        · exact fun _ => Pre.err _
+        · exact fun _ => Pre.bind_first (pre_rList p) (fun a => ih2 (d + 1) a.1 a.2) PS_pos
       | map =>
         simp only [skip]
-        exact Pre.bind_first (pre_rMap p) (fun a => ih3 a.1 a.2.1 a.2.2) PS_pos
+        apply Pre.ite
+        · exact fun _ => Pre.err _
+        · exact fun _ => Pre.bind_first (pre_rMap p) (fun a => ih3 (d + 1) a.1 a.2.1 a.2.2) PS_pos
       | struct =>
         simp only [skip]
-        have := ih4 0 0
-        simpa [PStruct] using this
+        apply Pre.ite
+        · exact fun _ => Pre.err _
+        · intro _
+          have := ih4 (d + 1) 0 0
+          simpa [PStruct] using this
       | stop | unknown _ => simp only [skip]; exact Pre.err _
     · cases n with
       | zero => simp only [skipN]; exact Pre.pure _
       | succ n =>
         simp only [skipN]
-        exact Pre.seqU (Pre.dontExpect (ih1 t).toPW) (fun _ => ih2 t n)
+        exact Pre.seqU (Pre.dontExpect (ih1 d t).toPW) (fun _ => ih2 d t n)
     · cases n with
       | zero => simp only [skipPairs]; exact Pre.pure _
       | succ n =>
         simp only [skipPairs]
-        refine Pre.seqU (Pre.dontExpect (ih1 kt).toPW) (fun _ => ?_)
+        refine Pre.seqU (Pre.dontExpect (ih1 d kt).toPW) (fun _ => ?_)
         dsimp +instances only
-        exact Pre.seqU (Pre.dontExpect (ih1 vt).toPW) (fun _ => ih3 kt vt n)
-    · refine Pre.congr ?_ (fun b => skipStruct_succ p fuel b last num)
+        exact Pre.seqU (Pre.dontExpect (ih1 d vt).toPW) (fun _ => ih3 d kt vt n)
+    · refine Pre.congr ?_ (fun b => skipStruct_succ p d fuel b last num)
       refine Pre.bind_first (pre_wrapE_rField p num) (fun h => ?_) (PStruct_pos num)
       dsimp +instances only
       apply Pre.ite
-      · exact fun _ => Pre.pure _
+      · intro _
+        apply Pre.ite
+        · exact fun _ => Pre.err _
+        · exact fun _ => Pre.pure _
       · intro _
         refine Pre.seqU (ne := false) (Pre.dontExpect ?_) (fun _ => ?_)
         · apply Pre.ite
           · exact fun _ => Pre.pure _
-          · exact fun _ => (ih1 h.t).toPW.weaken
-        · have := ih4 (wrap16 (if h.delta then h.id + last else h.id)) (num + 1)
+          · exact fun _ => (ih1 d h.t).toPW.weaken
+        · have := ih4 d (wrap16 (if h.delta then h.id + last else h.id)) (num + 1)
           rw [PStruct_succ] at this
           exact this.weaken
 
-theorem pre_skip (p : Proto) (fuel : Nat) (t : TType) : Pre true PS (fun b => skip p fuel t b) :=
-  (skip_all p fuel).1 t
-theorem pre_skipN (p : Proto) (fuel : Nat) (t : TType) (n : Nat) : Pre false PU (fun b => skipN p fuel t n b) :=
-  (skip_all p fuel).2.1 t n
-theorem pre_skipPairs (p : Proto) (fuel : Nat) (kt vt : TType) (n : Nat) :
-    Pre false PU (fun b => skipPairs p fuel kt vt n b) :=
-  (skip_all p fuel).2.2.1 kt vt n
-theorem pre_skipStruct (p : Proto) (fuel : Nat) (last : Int) (num : Nat) :
-    Pre true (PStruct num) (fun b => skipStruct p fuel b last num) :=
-  (skip_all p fuel).2.2.2 last num
+theorem pre_skip (p : Proto) (d fuel : Nat) (t : TType) : Pre true PS (fun b => skip p d fuel t b) :=
+  (skip_all p fuel).1 d t
+theorem pre_skipN (p : Proto) (d fuel : Nat) (t : TType) (n : Nat) : Pre false PU (fun b => skipN p d fuel t n b) :=
+  (skip_all p fuel).2.1 d t n
+theorem pre_skipPairs (p : Proto) (d fuel : Nat) (kt vt : TType) (n : Nat) :
+    Pre false PU (fun b => skipPairs p d fuel kt vt n b) :=
+  (skip_all p fuel).2.2.1 d kt vt n
+theorem pre_skipStruct (p : Proto) (d fuel : Nat) (last : Int) (num : Nat) :
+    Pre true (PStruct num) (fun b => skipStruct p d fuel b last num) :=
+  (skip_all p fuel).2.2.2 d last num
 
 end Enc.Lemmas.ThriftTotal
